@@ -37,7 +37,8 @@ use jrpc_harness::common::*;
 use jsonrpsee_core::RegisterMethodError;
 use jsonrpsee_core::server::{MethodCallback, MethodResponse, Methods, ResponsePayload, RpcModule};
 
-const ALPHABET: [&str; 5] = ["say_hello", "add", "chain_subscribe", "chain_unsubscribe", "state_get"];
+// two names differ from another only by surrounding (non-ASCII) white space: names are compared exactly
+const ALPHABET: [&str; 7] = ["say_hello", "add", "chain_subscribe", "chain_unsubscribe", "state_get", "say_hello\u{a0}", "\u{2003}add"];
 const SMALL: [&str; 2] = ["a", "b"];
 
 fn intern(s: &str) -> &'static str {
